@@ -466,9 +466,11 @@ class Ctx:
                 self.impl_crashes.append((c, r))
         return res
 
-    def model(self, cases, timeout=900):
+    def model(self, cases, timeout=900, sample=True):
+        """sample=False keeps the batch out of the thorough tier's vm_compute cross-check (cases that are cheap for the
+        extracted model but far too slow inside Coq's VM: 1000-deep documents, 1000-step reference chains)"""
         res = run_stream(self.model_bin, cases, timeout=timeout, per_case_recover=False)
-        if self.tier == "thorough" and len(self.vm_sample) < 300:
+        if sample and self.tier == "thorough" and len(self.vm_sample) < 300:
             # printed now: the caller may go on to mutate its case objects (C14 completes its tables in place)
             took = 0
             for c, r in zip(cases, res):
